@@ -925,7 +925,7 @@ def rule_r7(prog, res):
                         and pol and ' and ' not in t and ' or ' not in t:
                     soft = True
                     continue
-                if 'validate_string' in t and not pol:
+                if 'validate_string' in t:
                     continue      # fall-through of the string check's raise
                 extra.append((t, pol))
             ok = soft and not extra
